@@ -52,9 +52,7 @@ def sweep(tools, W, spec, tier, rng):
         calls = clean.calls()
         reqs, metas = [], []
         for k, c in enumerate(calls):
-            errs = ws.ERRNOS.get(c['name'], ['EIO'])
-            errs = errs[:2] if tier == 'quick' else errs
-            for e in errs:
+            for e in ws.errnos(c['name'], tier):
                 scen.reset()
                 r = scen.run(fail='%d:%s' % (k, e))
                 fired = any(t.get('fault') for t in r.trace if t['kind'] == 'call')
@@ -81,7 +79,7 @@ def sweep(tools, W, spec, tier, rng):
                     probs.append('spool left behind in TMPDIR: %s' % left)
             if r.status == 0:
                 probs += oracle.at_final_place(r.final)
-                if fired and e not in ('short', 'shorthalf'):
+                if fired and e not in ('short', 'shorthalf') and not ws.may_retry(c['name'], e):
                     cls = ignored_class(spec.kind, c, calls, k)
                     rec['exit0_class'] = cls or 'unlisted-exit0'
             rec['problems'] = probs
@@ -101,9 +99,7 @@ def run(rep):
         'the LD_PRELOAD shim (harness/shim/vshim.c): call numbering, fault injection, pinned clock/pid/host/random, sorted readdir snapshots',
         'stdio internals: a failed fflush/fclose is injected at the call, the bytes stdio itself writes are not visible to the shim',
     ])
-    specs = ws.corpus()
-    if rep.tier == 'quick':
-        pass
+    specs = ws.corpus(big=True)
     results = []
     with cf.ThreadPoolExecutor(min(vlib.NCPU, len(specs))) as ex:
         for res in ex.map(lambda s: sweep(tools, W, s, rep.tier, rng), specs):
@@ -145,8 +141,10 @@ def run(rep):
         'evaluations': len(results),
         'distinct_nontrivial': fired,
         'rule': '%d scenarios (move, cross-device move, flag, flags, label, add-header, discard, exec, exec stdin, exec stdin body, attachment '
-                'exec, combinations, stdin delivery with/without rewriting, cross-device, discard, reject); for each the fault-free traced run '
-                'and one run per (call index, errno/short) of its I/O call sequence; every run is (a) judged by the tree oracle (each message '
+                'exec, combinations, stdin delivery with/without rewriting, cross-device, discard, reject, a stdin message of several I/O '
+                'buffers); for each the fault-free traced run and one run per (call index, errno/short) of its I/O call sequence (read/write: '
+                'EINTR in every tier - a retried transfer must not repeat, drop or shift bytes; exit 0 after EINTR/EAGAIN is accepted only '
+                'with the message intact at its final place); every run is (a) judged by the tree oracle (each message '
                 'exactly once intact, no stray, exit 0 only at final place, non-zero exit unless ignored site) and (b) checked call by call '
                 'against Model.mainP with the observed results, final directory contents and exit status included; non-trivial = runs in '
                 'which the injected fault fired' % len(specs),
@@ -164,7 +162,7 @@ def replay(rep, path):
     j = json.load(open(path))
     sc = vlib.Scratch()
     tools = proc.Tools(sc)
-    spec = [s for s in ws.corpus() if s.name == j.get('scenario')]
+    spec = [s for s in ws.corpus(big=True) if s.name == j.get('scenario')]
     vlib.lean_gate(rep, 'C01', sc, [])
     if spec:
         scen = spec[0].build(tools)
